@@ -11,6 +11,7 @@ CONSTANTS
   MaxReorgs = 1
   MaxIdx = 1
   MaxFails = 1
+  InitDuties = FALSE
   Weaken = "none"
 INVARIANT AtMostOnce
 INVARIANT AtItsSlot
